@@ -54,6 +54,19 @@ theorem C18_sum_float_order_determined (ls : List (List Seg)) (es : List Edge)
     sorted_perm_unique es (calcCuts ls) (hp.trans (sortEdges_perm _).symm) hs (sortEdges_sorted _) hd'
   rw [this]; rfl
 
+/-- Beyond the exactness bound float32 rounding changes magnitudes only, never the timing: for ALL lists (no
+bound on the magnitudes) and whatever arrangement of equal-time edges the unstable sort produces, the finished
+segments of the float rendering of `Sum` have exactly the lengths of those of the exact `Sum` — the breakpoints
+of the float result are the breakpoints of the pointwise sum (`C18_sum`), and so is its total finite length. -/
+theorem C18_sum_float_timing (ls : List (List Seg)) (es : List Edge)
+    (hp : es.Perm (rawEdges ls)) (hs : SortedT es) :
+    closedLens (sumEdgesF (dropRule (anyInfinite ls)) es) = closedLens (sum ls) ∧
+    closedLens (sumF ls) = closedLens (sum ls) ∧ lenSum (sumF ls) = lenSum (sum ls) := by
+  have h1 : closedLens (sumEdgesF (dropRule (anyInfinite ls)) es) = closedLens (sum ls) := by
+    rw [sumEdgesF_closedLens _ (dropRule (anyInfinite ls)) es, C18_sum_any_sort ls es hp hs]
+  have h2 : closedLens (sumF ls) = closedLens (sum ls) := sumEdgesF_closedLens _ _ _
+  exact ⟨h1, h2, by rw [lenSum_eq_closedLens, lenSum_eq_closedLens, h2]⟩
+
 /-- `SumMagnitude` in float32 is the exact total while the absolute magnitudes total less than 2^24. -/
 theorem C18_sumMagnitude_float (segs : List Seg) (h : magAbs segs < 16777216) :
     sumMagnitudeF segs = sumMagnitude segs :=
@@ -79,6 +92,9 @@ example : sumF [[⟨0, some 3⟩, ⟨16777216, some 2⟩], [⟨0, some 4⟩, ⟨
 example : 2 * magAbsAll [[⟨2, some 2⟩, ⟨-3, some 1⟩, ⟨-1, none⟩], [⟨-1, some 4⟩]] < 16777216 := by decide
 example : sumF [[⟨2, some 2⟩, ⟨-3, some 1⟩, ⟨-1, none⟩], [⟨-1, some 4⟩]]
     = [⟨1, some 2⟩, ⟨-4, some 1⟩, ⟨-2, some 1⟩, ⟨-1, none⟩] := by decide
+example : closedLens (sumF [[⟨16777216, some 1⟩, ⟨3, some 2⟩], [⟨1, some 2⟩]]) = [1, 1, 1] ∧
+    closedLens (sum [[⟨16777216, some 1⟩, ⟨3, some 2⟩], [⟨1, some 2⟩]]) = [1, 1, 1] ∧
+    sumF [[⟨16777216, some 1⟩, ⟨3, some 2⟩], [⟨1, some 2⟩]] ≠ sum [[⟨16777216, some 1⟩, ⟨3, some 2⟩], [⟨1, some 2⟩]] := by decide
 example : rnd24 16777219 = 16777220 ∧ rnd24 16777217 = 16777216 ∧ rnd24 (-33554431) = -33554432 := by decide
 
 end ScVerif.C18
